@@ -273,8 +273,13 @@ def run_random(spec, rec):
                 # whatever the first call did (it may have raised), the same
                 # backend object must be usable for another, harmless graph
                 rng2 = core.rng_for(seed, PROP, 'then', idx)
-                then = H.gen_dag(rng2, len(case['tasks']),
-                                 p_hard=rng2.choice([0.2, 0.5]), p_soft=0.2)
+                # (over a part of the tasks, with other dependencies: what
+                # the backend learnt about the first graph must not matter)
+                part = rng2.sample(sorted(case['tasks']),
+                                   rng2.randint(1, len(case['tasks'])))
+                then = H.gen_dag_over(rng2, part,
+                                      p_hard=rng2.choice([0.2, 0.5]),
+                                      p_soft=0.2)
                 then['outcomes'] = {n: 'ok' for n in then['tasks']}
                 then['workers'] = case['workers']
                 rec.count('backend_reused_after_the_first_call')
